@@ -107,6 +107,12 @@ func Linear(info *types.Info, e ast.Expr) (LinForm, bool) {
 			}
 			return atom()
 		default:
+			// a constant expression built from literals only (1<<24): its value
+			if tv, ok := info.Types[x]; ok && tv.Value != nil && constant.ToInt(tv.Value).Kind() == constant.Int && onlyLiterals(x) {
+				if v, exact := constant.Int64Val(constant.ToInt(tv.Value)); exact {
+					return LinForm{Terms: map[string]int{}, Const: v}, true
+				}
+			}
 			return atom()
 		}
 	case *ast.UnaryExpr:
@@ -426,4 +432,16 @@ func DNF(info *types.Info, e ast.Expr, inline func(ast.Expr) (ast.Expr, *types.I
 		return nil, false
 	}
 	return rec(e, info, false)
+}
+
+// onlyLiterals reports whether e contains no identifiers (named constants stay symbolic in linear forms).
+func onlyLiterals(e ast.Expr) bool {
+	ok := true
+	ast.Inspect(e, func(n ast.Node) bool {
+		if _, isID := n.(*ast.Ident); isID {
+			ok = false
+		}
+		return ok
+	})
+	return ok
 }
